@@ -408,6 +408,11 @@ def run(ctx, res):
     basics_tables(prog, res)
     loader_cleanup(prog, res)
     res.guard(bounded_and_literals, prog, res)
+    from ..indexguard import rule_index_guards
+    cnt = dict(prog.enum_values("BasicDeviceKind") or {}).get("BasicDeviceKindCount")
+    res.guard(rule_index_guards, prog, res, ["basics_make_storage", "device_kind_as_string", "device_state_as_string"],
+              {("basics_make_storage", "globals.constructors"): cnt})
+    res.require_min("R-INDEX", 3)
     res.require_min("R-BOUNDED", 4)
     res.require_min("X-BARRIER", 6)
     res.require_min("R-SELECT", 7)
